@@ -269,9 +269,9 @@ func (svc *service) stop() {
 		svc.sessMgr.Del(svc.sess.ID())
 	}
 
-	svc.conn = nil
-	svc.in = nil
-	svc.out = nil
+	// conn, in and out are not cleared: other goroutines (publishers fanning out
+	// to this connection) still read them without synchronisation. The buffers
+	// are closed, so writeMessage fails with EOF from here on.
 }
 
 func (svc *service) publish(msg *message.PublishMessage, onComplete OnCompleteFunc) error {
